@@ -266,4 +266,10 @@ def run(F, rep):
     import recursion as _recw
     _recw.rule_walkers(F, rep, 'C11.W1', ['clone', 'fixComponentUnits', 'generateEquivalenceMap'], 3, 'copying components, their units links and equivalences')
 
+    # ------------------------------------------------------------------ clause shared with C09: Model::clone re-creates equivalences only for variables whose component reports the model as owner
+    if not getattr(rep, 'nested', False):
+        import core
+        import c09
+        c09.run(F, core.Borrowed(rep, only={'C09.P1', 'C09.P2'}))
+
 
